@@ -283,6 +283,7 @@ func TestCheck(t *testing.T) {
 		{name: "cancellation at any moment, one write", writer: []string{"sleep:30s", "put"}, cancelAt: true, horizon: 300 * time.Second},
 		{name: "cancellation at any moment while idle", cancelAt: true, horizon: 200 * time.Second},
 		{name: "file shrinks between uploads (large secret deleted at 30s, put at 100s)", writer: []string{"sleep:30s", "delbig", "sleep:70s", "put"}, big: true, horizon: 400 * time.Second},
+		{name: "first upload in flight for 90s, then an idle database", slowFirst: 90 * time.Second, horizon: 400 * time.Second},
 		{name: "first upload in flight for 90s, writes at 30s and 100s", writer: []string{"sleep:30s", "put", "sleep:70s", "put"}, slowFirst: 90 * time.Second, horizon: 520 * time.Second},
 	}
 	var list []hx.Scenario
